@@ -17,7 +17,8 @@ Inductive mdigest :=
 Inductive mobs := MO (cls : Z) (rc : cid) (flag : bool) (evs : list mev) (d : mdigest).
 
 Inductive gdigest :=
-| GS (highest : Z) (active : list (Z * cid)) (toretire : list (Z * cid)) (initial : option cid).
+| GS (highest : Z) (active : list (Z * cid)) (toretire : list (Z * cid)) (initial : option cid)
+     (nextRetire : option Z).   (* NextRetireTime(); None when the tree under test has no such accessor *)
 
 Inductive gobs := GO (cls : Z) (evs : list gev) (d : gdigest).
 
@@ -55,7 +56,7 @@ Fixpoint mgr_trace (ops : list mop) (st : mgr) : list mobs :=
   end.
 
 Definition gdigest_of (g : gen) : gdigest :=
-  GS (g_highest g) (g_active g) (g_toretire g) (g_initial g).
+  GS (g_highest g) (g_active g) (g_toretire g) (g_initial g) (Some (gen_next_retire g)).
 
 Fixpoint gen_trace (ops : list gop) (g : gen) : list gobs :=
   match ops with
@@ -151,8 +152,9 @@ Definition gev_eqb (a b : gev) : bool :=
 
 Definition gdigest_eqb (a b : gdigest) : bool :=
   match a, b with
-  | GS h1 a1 r1 i1, GS h2 a2 r2 i2 =>
-    (h1 =? h2) && perm_eqb zc_eqb a1 a2 && list_eqb zc_eqb r1 r2 && opt_eqb cid_eqb i1 i2
+  | GS h1 a1 r1 i1 n1, GS h2 a2 r2 i2 n2 =>
+    (h1 =? h2) && perm_eqb zc_eqb a1 a2 && list_eqb zc_eqb r1 r2 && opt_eqb cid_eqb i1 i2 &&
+    match n1, n2 with Some x, Some y => x =? y | _, _ => true end
   end.
 
 Definition gobs_eqb (a b : gobs) : bool :=
